@@ -10,6 +10,12 @@
 (*            protected name added: name, kind, position), T, hm, kout,    *)
 (*            kin, red, topk,                                              *)
 (*            conk, tpik, idsame, valid, signers]                          *)
+(*   edge    as ops (fam "ops"): proto.num a RepKind / proto.depth high;    *)
+(*           mayrefuse: Build may refuse the (ambiguous) proto-event        *)
+(*   alias   [fam, ver, ..., proto, steps (the operation before), who, o,   *)
+(*            cold, red, idsame]                                            *)
+(*   tamper  also bulk ("none" | "bulk30" | "bulk70" | "pad"), refused,     *)
+(*           proto.big                                                     *)
 (*   dup     [fam, ver, ..., proto, m, pos, sp, hm, styp, first, last]     *)
 (*           (a member written twice; first / last: the two readings)      *)
 (***************************************************************************)
@@ -43,6 +49,19 @@ NoVersions == {}
 SibAll == AllSibFields
 NoFields == {}
 \* family sid (signer identities): every server-name spelling and every key-ID spelling with every room version
+\* family edge: repeated member names, high depths
+VariantsEdge == {1} \cup EdgeVariants
+AlphabetEdge == {"RU", "RT", "RH", "RD"}
+ShapesEdgeQuick == {1, 7}
+\* family sib: the quick variants and the high depths
+VariantsSibQuick == {1, 2, 5} \cup DepthVariants
+VariantsSibAll == AllVariants \cup DepthVariants
+\* family alias
+ShapesAliasQuick == {1, 7}
+ShapesAlias == {1, 3, 5, 7, 12}
+Variants124 == {1, 2, 4}
+PreAlias == {"none", "SU1", "AS2", "RD"}
+PreAliasQuick == {"none", "SU1", "RD"}
 NoSid == {}
 SidQuick == {sp \in AllSpellings : sp[1] = "dns" \/ sp[2] = "alnum"} \cup {<<"ipv6port", "long">>, <<"long", "under">>}
 SidAll == AllSpellings
@@ -51,7 +70,7 @@ ShapesSid == {1, 5, 7, 12}
 AlphabetSid == {"RU", "RT", "RH", "AS1", "AS2", "RD"}
 
 ProtoJson(p) ==
-    [type |-> p.type, sk |-> p.sk, redacts |-> p.redacts, num |-> p.num, lim |-> p.lim, con |-> p.con, tpiobj |-> p.tpi.obj, tpi |-> p.tpi.keys,
+    [type |-> p.type, sk |-> p.sk, redacts |-> p.redacts, num |-> p.num, lim |-> p.lim, big |-> p.big, con |-> p.con, tpiobj |-> p.tpi.obj, tpi |-> p.tpi.keys,
      prev |-> p.prev, auth |-> p.auth, depth |-> p.depth, unsigned |-> p.unsigned, room |-> p.room,
      sender |-> p.sender, ts |-> p.ts, origin |-> p.origin, sigkey |-> p.sigkey,
      sname |-> p.sname, skey |-> p.skey]
@@ -65,9 +84,12 @@ Complete ==
 Emit ==
     Complete =>
         PrintT(ToJson(
-            IF Family \in OpsFamilies THEN
+            IF Family \in OpsFamilies \/ phase = "refused" THEN
                 [fam |-> IF Family = "sid" THEN "sid" ELSE "ops", ver |-> ver, idfmt |-> EventIDFormat(ver), proto |-> ProtoJson(proto), steps |-> hist,
-                 refuse |-> phase = "refused"]
+                 refuse |-> phase = "refused", mayrefuse |-> RepMayRefuse(proto)]
+            ELSE IF Family = "alias" THEN
+                [fam |-> "alias", ver |-> ver, idfmt |-> EventIDFormat(ver), proto |-> ProtoJson(proto), steps |-> hist,
+                 who |-> out.who, o |-> out.o, cold |-> out.cold, red |-> out.red, idsame |-> out.idsame]
             ELSE IF Family = "sib" THEN
                 [fam |-> "sib", ver |-> ver, idfmt |-> EventIDFormat(ver), proto |-> ProtoJson(proto), steps |-> hist,
                  f |-> out.f, proto2 |-> ProtoJson(out.proto2), same |-> out.same]
@@ -79,7 +101,7 @@ Emit ==
             ELSE
                 [fam |-> "tamper", ver |-> ver, idfmt |-> EventIDFormat(ver), algo |-> A, proto |-> ProtoJson(proto),
                  pre |-> IF Len(hist) = 2 THEN hist[1].op ELSE "none", sp |-> out.sp,
-                 vk |-> out.vk, vs |-> out.vs, vpos |-> out.vpos,
+                 vk |-> out.vk, vs |-> out.vs, vpos |-> out.vpos, bulk |-> out.bulk, refused |-> out.refused,
                  T |-> out.T, hm |-> out.hm, kout |-> out.kout, kin |-> out.kin, red |-> out.red, noop |-> out.noop,
                  topk |-> out.topk, conk |-> out.conk, tpik |-> out.tpik, idsame |-> out.idsame,
                  valid |-> out.valid, signers |-> DOMAIN sigs]))
